@@ -45,7 +45,7 @@ def cmd_check(args) -> int:
     runner.write_evidence(prop, tier, seed, total, known, new, mod, extra=extra)
     print(f"[{prop}] runs={total['runs']} nontrivial={total['nontrivial']} distinct={len(total['digests'])} "
           f"wall={total['wall_s']:.1f}s violations_raw={len(total['violations'])} new={len(new)} known={len(known)}"
-          f"{' (stopped at wall cap)' if total['stopped_early'] else ''}", flush=True)
+          f"{' (stopped early: ' + ('enough violations' if total.get('stopped_on_violations') else 'wall cap') + ')' if total['stopped_early'] else ''}", flush=True)
     return runner.finish(prop, known, new, total)
 
 
@@ -63,8 +63,21 @@ def cmd_replay(args) -> int:
             mod.worker_init(os.getcwd())
         return mod.run(doc["spec"], Decider(recorded=doc["decisions"], mode="strict"), keep_events=True)
 
+    from .kernel import ReplayDiverged
+
     try:
         rr = runner.in_scratch(work)
+    except ReplayDiverged as e:
+        # the code under test no longer behaves as it did when the file was recorded (e.g. it was repaired):
+        # follow the recorded decisions as far as they fit, then choose 0, and report what that run shows
+        print(f"NOTE: {e}; continuing leniently")
+
+        def work2():
+            if hasattr(mod, "worker_init"):
+                mod.worker_init(os.getcwd())
+            return mod.run(doc["spec"], Decider(recorded=doc["decisions"], mode="lenient"), keep_events=True)
+
+        rr = runner.in_scratch(work2)
     except HarnessError as e:
         print(f"HARNESS-ERROR: {e}")
         return 2
